@@ -21,7 +21,12 @@ def mk_case(seed, varied=True, max_tables=4):
     spec = SP.normalise_for_spelling(spec, RT.ref_norm)
     if not SP.spellable(spec):
         return None
-    text, exp, info = SP.spell(spec, rng, {'varied': varied})
+    # a fifth of the documents carries comments wherever the grammar allows them (several per document, line and block style):
+    # what is declared does not depend on them (the comparison leaves the comment attributes to C14)
+    opts = {'varied': varied}
+    if rng.random() < 0.2:
+        opts.update(comments=True, comment_seed=f'{seed}:c01')
+    text, exp, info = SP.spell(spec, rng, opts)
     return {'seed': seed, 'text': text, 'expected': exp, 'props': spec['allow_properties'], 'spec': spec, 'forms': info['forms']}
 
 
